@@ -16,11 +16,17 @@
                            header, and it is the first frame;
    (2b) C04_sess_term_once at most one SESS_TERM; [in_term] iff one was sent.
 
+   (2c) no START segment after SESS_TERM.  The FULL-STRENGTH statement
+          sent s = pre ++ FMsg (MSessTerm fl r) :: post -> no START segment in post
+        is FALSE for the model as for the code: C04_no_start_after_term_refuted
+        (peer announces segment MRU 0: every _process_queue pass sends another
+        START segment with no data and never advances, also after SESS_TERM;
+        file.read(0) returns b'').  Proved instead: C04_no_start_after_term_partial,
+        the statement under the hypothesis that the segment size in use is
+        positive in every state of the run in which the session is established.
+
    NOT YET PROVED (in progress, statements as in the work order):
-     no_start_after_term (2c; needs
-     the hypothesis that the negotiated segment size is positive -- with a
-     peer segment MRU of 0 the model, like the code, repeats START segments
-     with no data, also after SESS_TERM), sess_init_active / sess_init_passive
+     sess_init_active / sess_init_passive
      (2d), C04_grammar_active / C04_grammar_passive / C04_pair (2e),
      seg_within_mru (2f), ack_echo (2g). *)
 From Coq Require Import List NArith Bool.
@@ -60,6 +66,30 @@ Theorem C04_sess_term_once : forall (c : cfg) (ops : list op),
   /\ (in_term s = true <-> exists fl r, In (FMsg (MSessTerm fl r)) (sent s)).
 Proof. exact sess_term_once. Qed.
 Print Assumptions C04_sess_term_once.
+
+Theorem C04_no_start_after_term_partial : forall (c : cfg) (ops : list op),
+  (forall k, let s := run c (firstn k ops) in in_sess s = true -> 0 < seg_size s) ->
+  forall pre fl r post, sent (run c ops) = pre ++ FMsg (MSessTerm fl r) :: post ->
+  Forall (fun f => match f with FMsg (MXferSeg flags _ _ _) => has_start flags = false | _ => True end) post.
+Proof. exact no_start_after_term_partial. Qed.
+Print Assumptions C04_no_start_after_term_partial.
+
+Theorem C04_no_start_after_term_refuted :
+  exists c ops pre fl r post, sent (run c ops) = pre ++ FMsg (MSessTerm fl r) :: post
+    /\ ~ Forall (fun f => match f with FMsg (MXferSeg flags _ _ _) => has_start flags = false | _ => True end) post.
+Proof. exact no_start_after_term_refuted. Qed.
+Print Assumptions C04_no_start_after_term_refuted.
+
+(* Non-vacuity of the hypothesis of the partial statement: a run with a
+   positive segment size that sends SESS_TERM with a transfer in progress. *)
+Example C04_partial_nonvacuous :
+  let c := mkCfg false [100] 30 60 1000 2 None in
+  let ops := [OStart; ORx (encode_frame (FContact (mkContact MAGIC 4 0)));
+              ORx (encode_frame (FMsg (MSessInit 30 2 1000 [100] []))); OSend [1;2;3]; OPQ; OTerm 0;
+              OSend [4]; OPQ] in
+  forallb (fun k => let s := run c (firstn k ops) in negb (in_sess s) || (0 <? seg_size s)) (seq 0 9) = true
+  /\ existsb (fun f => match f with FMsg (MSessTerm _ _) => true | _ => false end) (sent (run c ops)) = true.
+Proof. vm_compute. split; reflexivity. Qed.
 
 (* Non-vacuity: a run in which frames are sent and octets reach the wire. *)
 Example C04_example_run :
